@@ -73,6 +73,7 @@ class FProgram(pyobj.Program):
        const_params: {function name: {parameter: True}}  parameters that must be passed a literal constant (specialisation)"""
 
     def __init__(self, classes, functions, externs=None, local_types=None, const_params=None, defaults=None, **kw):
+        self.type_params = list(kw.pop('type_params', ()))
         super().__init__(classes, **kw)
         self.functions = functions
         self.externs = externs or {}
@@ -139,7 +140,7 @@ def specialise(fn, consts):
         out = []
         for s in stmts:
             if isinstance(s, ast.If):
-                s.body, s.orelse = prune(s.body), prune(s.orelse)
+                s.body, s.orelse = prune(s.body), (prune(s.orelse) if s.orelse else [])
                 t = s.test
                 neg = False
                 if isinstance(t, ast.UnaryOp) and isinstance(t.op, ast.Not):
@@ -295,7 +296,8 @@ class FTr(MTr):
             if hit is None:
                 self.fresh, self.pre = f0, pre0
                 continue
-            proj, t = hit
+            proj, t = hit[0], hit[1]
+            self.use_ext(hit[2:])
             txt = proj.format(par(bv))
             return (f'({txt} = true)', PROP) if t == BOOL else (f'({txt})' if ' ' in txt else txt, t)
         base, bt = None, None
@@ -323,6 +325,18 @@ class FTr(MTr):
                         raise Untranslatable(f'item {s.value!r} of a {bt[4:]} is not declared')
                     txt = hit[0].format(par(base))
                     return (f'({txt} = true)', PROP) if hit[1] == BOOL else (txt, hit[1])
+                if isinstance(s, ast.Constant) and isinstance(s.value, int) and not isinstance(s.value, bool) and s.value in d.get('tupleitems', {}):
+                    hit = d['tupleitems'][s.value]          # element of a tuple of known length: cannot raise
+                    self.use_ext(hit[2:])
+                    txt = hit[0].format(par(base))
+                    return (f'({txt})' if ' ' in txt else txt), hit[1]
+                lk = d.get('lookup')
+                if lk is not None:                           # a mapping with a declared (raising) lookup
+                    kv, kt = self.expr(s)
+                    if kt != lk['key']:
+                        raise Untranslatable(f'key of type {kt}, declared {lk["key"]}')
+                    self.use_ext(lk.get('ext', ()))
+                    return self.hoist(lk['lean'].format(par(base), par(kv)), 'item'), lk['ret']
                 gi = d.get('getitem')
                 if gi is None:
                     raise Untranslatable(f'subscript of a {bt[4:]}')
@@ -392,14 +406,24 @@ class FTr(MTr):
                         raise Untranslatable(f'{f.attr}: argument of type {t}, expected {pt}')
                     args.append(par(x))
                 term = m['lean'].format(par(base), *args)
+                self.use_ext(m.get('ext', ()))
                 if m.get('raises'):
                     return self.hoist(term, f.attr.strip('_') or 'call'), m['ret']
                 return (f'({term} = true)', PROP) if m['ret'] == BOOL else (f'({term})', m['ret'])
             self.fresh, self.pre = f0, pre0
         return super().call(e, key)
 
+    def use_ext(self, names):
+        for n in names:
+            if n not in self.prog.externs:
+                raise Untranslatable(f'external {n} is not declared')
+            if n not in self.ext_used:
+                self.ext_used.append(n)
+
     def extern_call(self, name, e):
         x = self.prog.externs[name]
+        if x.get('params') is None:
+            raise Untranslatable(f'{name} is not callable')
         vals = {}
         if len(e.args) > len(x['params']):
             raise Untranslatable(f'{name}: too many arguments')
@@ -476,6 +500,8 @@ class FTr(MTr):
             if kind == 'H':
                 self.uses_H = True
                 actual.append('H')
+            elif kind == 'tparam':
+                continue
             elif kind == 'ext':
                 if py not in self.ext_used:
                     self.ext_used.append(py)
@@ -577,6 +603,32 @@ class FTr(MTr):
     def if_(self, s, rest, kont):
         nw = self.narrowing(s.test)
         if nw is None:
+            t = s.test
+            neg = False
+            while isinstance(t, ast.UnaryOp) and isinstance(t.op, ast.Not):
+                t, neg = t.operand, not neg
+            if isinstance(t, ast.BoolOp) and len(t.values) > 1:
+                saved = (dict(self.env), self.fresh, list(self.pre), list(self.ext_used))
+                try:
+                    return super().if_(s, rest, kont)
+                except Untranslatable as e:
+                    if 'conditionally' not in str(e):
+                        raise
+                self.env, self.fresh, self.pre, self.ext_used = saved
+                # `if a or b: S else: T` = `if a: S else: (if b: S else: T)` (and dually for `and`): the later operands, which can
+                # raise, are evaluated exactly where Python evaluates them
+                body, orelse = (s.orelse, s.body) if neg else (s.body, s.orelse)
+                body, orelse = list(body) or [ast.Pass()], list(orelse)
+                is_or = isinstance(t.op, ast.Or)
+                node = None
+                for v in reversed(t.values):
+                    if node is None:
+                        node = ast.If(test=v, body=body, orelse=orelse)
+                    elif is_or:
+                        node = ast.If(test=v, body=body, orelse=[node])
+                    else:
+                        node = ast.If(test=v, body=[node], orelse=orelse)
+                return self.if_(ast.copy_location(node, s), rest, kont)
             return super().if_(s, rest, kont)
         x, none_first = nw
         t = opt_of(self.env[x])
@@ -620,11 +672,23 @@ class FTr(MTr):
         else:
             rt = 'Unit'
         ext = [('ext', n, self.prog.externs[n]['lean'], None) for n in self.prog.externs if n in self.ext_used]
-        sig = ([('H', 'H', 'H', None)] if self.uses_H else []) + ext + self.sig
+        tps = []
+        for _, n, _, _ in ext:
+            for tp in self.prog.externs[n].get('tparams', ()):
+                if tp not in tps:
+                    tps.append(tp)
+        for _, _, _, t in self.sig:
+            for tp in self.prog.type_params:
+                if t is not None and tp in self.prog.lean_ty(t).split() and tp not in tps:
+                    tps.append(tp)
+        tps = [tp for tp in self.prog.type_params if tp in tps]
+        sig = [('tparam', tp, tp, None) for tp in tps] + ([('H', 'H', 'H', None)] if self.uses_H else []) + ext + self.sig
         ps = []
         for k, py, ln, t in sig:
             if k == 'H':
                 ps.append('(H : Bytes → Bytes)')
+            elif k == 'tparam':
+                ps.append(f'{{{ln} : Type}}')
             elif k == 'ext':
                 ps.append(self.prog.externs[py]['binder'])
             else:
